@@ -166,6 +166,25 @@ let esamples_of s =
 
 let frames_str fs = if fs = [] then "-" else String.concat ";" (List.map (fun (fid, p) -> string_of_cz fid ^ ":" ^ hex_of_bytes p) fs)
 
+(* ---- configuration histories ------------------------------------------- *)
+let rec drop n l = if n <= 0 then l else match l with [] -> [] | _ :: r -> drop (n - 1) r
+let nats_of s = List.map (fun x -> nat_of_int (int_of_string x)) (split ',' s)
+let answer_of s = match s with
+  | "A" -> M.Ack | "LR" -> M.LostReq | "LA" -> M.LostAck
+  | _ -> M.Nack (cz_of_string (String.sub s 1 (String.length s - 1)))
+let op_of s = match String.split_on_char ':' s with
+  | [ "E"; cs ] -> M.OpEnable (nats_of cs)
+  | [ "D"; cs ] -> M.OpDisable (nats_of cs)
+  | [ "V"; cs; v ] -> M.OpDivider (nats_of cs, cz_of_string v)
+  | [ "EA" ] -> M.OpEnableAll | [ "DA" ] -> M.OpDisableAll | [ "DF" ] -> M.OpDefault
+  | [ "W"; a1; a2 ] -> M.OpWrite (answer_of a1, answer_of a2)
+  | _ -> failwith "op"
+let req_str = function
+  | M.RqEnSingle (k, v) -> Printf.sprintf "es:%d:%d" (int_of_nat k) (if v then 1 else 0)
+  | M.RqEnVec l -> "ev:" ^ string_of_bools l
+  | M.RqDivSingle (k, v) -> Printf.sprintf "ds:%d:%s" (int_of_nat k) (string_of_cz v)
+  | M.RqDivVec l -> "dv:" ^ string_of_zs l
+
 (* ---- commands ------------------------------------------------------- *)
 let run (w : string list) : string =
   match w with
@@ -257,6 +276,17 @@ let run (w : string list) : string =
      | None -> "raise-or-fuel"
      | Some (fs, rest) -> frames_str fs ^ " | " ^ hex_of_bytes rest)
   | [ "scan"; d ] -> let (fs, rest) = M.scan (bytes_of_hex d) in frames_str fs ^ " | " ^ hex_of_bytes rest
+  | [ "config"; divsup; acksup; en0; div0; ops ] ->
+    let s0 = M.connected (bools_of_string en0) (zs_of_string div0) (divsup = "1") (acksup = "1") in
+    let (_, outs) = List.fold_left (fun (s, acc) o ->
+        let s' = M.step s (op_of o) in
+        let (c, d) = s' and (_, d0) = s in
+        let nlog = drop (List.length d0.M.d_log) d.M.d_log in
+        (s', acc @ [ Printf.sprintf "en=%s div=%s now=%s dnow=%s log=%s" (string_of_bools d.M.d_en)
+                       (string_of_zs d.M.d_div) (string_of_bools c.M.en_now) (string_of_zs c.M.div_now)
+                       (if nlog = [] then "-" else String.concat "+" (List.map req_str nlog)) ]))
+        (s0, []) (String.split_on_char ';' ops) in
+    String.concat " / " outs
   | _ -> "driver-error unknown-command"
 
 let () =
